@@ -1,5 +1,8 @@
 import SlVerif.Proofs.Rvole
+import SlVerif.Proofs.RvoleOt
 import SlVerif.Props.C03
+import SlVerif.Props.C06
+import SlVerif.Props.C05
 /-
   C01 — "Whenever both parties follow the random vector-OLE protocol, for every batch position i the sender's output
   share c_i and the receiver's output share d_i satisfy c_i + d_i = a_i * b modulo the secp256k1 group order, where a is
@@ -19,6 +22,11 @@ import SlVerif.Props.C03
     ext                OT-extension variant: every oracle, session id, input vector (any naturals), tapes, seed sets in the
                        all-but-one relation — the sender accepts round one, the receiver accepts round two, and
                        (c_i + d_i) % q = (a_i * b) % q.  The OT relation is DISCHARGED by `C03.main`.
+    base               base-OT variant: the same conclusion from the base-OT key relation of the two Endemic exchanges
+                       (the conclusion of C05, stated as hypotheses `hA hB : KeyRel …` until `Props/C05.lean` exists)
+    pipeline           OT-extension variant on seeds produced by `build_pprf` / `eval_pprf` from base-OT outputs in the
+                       relation `C06.BaseOT`: the all-but-one relation is DISCHARGED by `C06.main`, the OT relation by
+                       `C03.main`; the base-OT relation itself is the hypothesis (C05)
 -/
 namespace SlVerif.C01
 open SlVerif SlVerif.Rvole SlVerif.Generated
@@ -57,7 +65,7 @@ theorem of_OT (h : Query → Id Bytes) (sid beta : Bytes) (v0 v1 vx : List (List
   rw [senderCore_id, receiverCore_id, receiverMu_id]
   simp only
   rw [mu_match _ beta _ _ _ a _ hrel]
-  rw [if_neg (by simp)]
+  rw [if_neg (by unfold checkOk; simp only; rw [etaFinal_canonical]; simp)]
   refine ⟨_, rfl, ?_⟩
   intro i hi
   have hz := shares_zmod (gadgetVec (m := Id) h sid) beta _ _ _ a (drawEta RHO tapeS).1 hrel i hi
@@ -114,6 +122,136 @@ theorem ext' (h : Query → Id Bytes) (sid : Bytes) (encKeys decKeys : List (Lis
   rw [hR] at this
   exact this
 
+/-- **C01, base-OT variant.**  For every oracle `h`, session id, sender input `a` and tapes of both parties: with
+    `(st, msg1, b, _) = RVOLEReceiver::new(sid, tapeR)` of rvole_ot_variant.rs, IF the two Endemic base OTs are correct —
+    `hA`, `hB`: the sender of each reports no error, the receiver decodes, and per instance the receiver's key is the
+    sender's key for its choice bit (`KeyRel`; this is the conclusion of property C05 for one base OT, cf.
+    `SlVerif.Endemic.exchange_correct`, and the premise `BaseOT.cons` of `C06.main`) — THEN the variant's sender returns
+    `Ok(c)` with a message `msg`, the variant's receiver accepts `msg` and returns `d`, and `c_i + d_i = a_i · b (mod q)`.
+    The hypotheses are about the base-OT layer only; everything the variant adds (derived session ids, expansion of the
+    keys into OT_WIDTH strings, gadget vector, masking, check) is covered for every behaviour of merlin. -/
+theorem base (h : Query → Id Bytes) (sid : Bytes) (a : List ℕ) (tapeR tapeS : Tape)
+    (ka kb : List Bytes)
+    (hAe : (Endemic.sendProcess (m := Id) h (otSids (m := Id) h sid).1
+              (receiverNewOt (m := Id) h sid tapeR).2.1.a tapeS).1.err = false)
+    (hBe : (Endemic.sendProcess (m := Id) h (otSids (m := Id) h sid).2 (receiverNewOt (m := Id) h sid tapeR).2.1.b
+              (Endemic.sendProcess (m := Id) h (otSids (m := Id) h sid).1
+                (receiverNewOt (m := Id) h sid tapeR).2.1.a tapeS).2).1.err = false)
+    (hAr : Endemic.recvProcess (m := Id) h (receiverNewOt (m := Id) h sid tapeR).1.stA
+              (Endemic.sendProcess (m := Id) h (otSids (m := Id) h sid).1
+                (receiverNewOt (m := Id) h sid tapeR).2.1.a tapeS).1.msg2 = some ka)
+    (hBr : Endemic.recvProcess (m := Id) h (receiverNewOt (m := Id) h sid tapeR).1.stB
+              (Endemic.sendProcess (m := Id) h (otSids (m := Id) h sid).2 (receiverNewOt (m := Id) h sid tapeR).2.1.b
+                (Endemic.sendProcess (m := Id) h (otSids (m := Id) h sid).1
+                  (receiverNewOt (m := Id) h sid tapeR).2.1.a tapeS).2).1.msg2 = some kb)
+    (hA : KeyRel (receiverNewOt (m := Id) h sid tapeR).1.stA.choiceBits
+            (Endemic.sendProcess (m := Id) h (otSids (m := Id) h sid).1
+              (receiverNewOt (m := Id) h sid tapeR).2.1.a tapeS).1.keys ka)
+    (hB : KeyRel (receiverNewOt (m := Id) h sid tapeR).1.stB.choiceBits
+            (Endemic.sendProcess (m := Id) h (otSids (m := Id) h sid).2 (receiverNewOt (m := Id) h sid tapeR).2.1.b
+              (Endemic.sendProcess (m := Id) h (otSids (m := Id) h sid).1
+                (receiverNewOt (m := Id) h sid tapeR).2.1.a tapeS).2).1.keys kb) :
+    (senderProcessOt (m := Id) h sid a (receiverNewOt (m := Id) h sid tapeR).2.1 tapeS).err = none ∧
+    ∃ d, receiverProcessOt (m := Id) h (receiverNewOt (m := Id) h sid tapeR).1
+            (senderProcessOt (m := Id) h sid a (receiverNewOt (m := Id) h sid tapeR).2.1 tapeS).msg = .ok d ∧
+      ∀ i < L_BATCH,
+        ((senderProcessOt (m := Id) h sid a (receiverNewOt (m := Id) h sid tapeR).2.1 tapeS).c.getD i 0 + d.getD i 0)
+            % secpQ
+          = (a.getD i 0 * (receiverNewOt (m := Id) h sid tapeR).2.2.1) % secpQ := by
+  rw [senderProcessOt_ok h sid a _ tapeS hAe hBe]
+  dsimp only
+  refine ⟨rfl, ?_⟩
+  rw [receiverProcessOt_ok' h (receiverNewOt (m := Id) h sid tapeR).1 _ _ _ ka kb hAr hBr]
+  have hla : (receiverNewOt (m := Id) h sid tapeR).1.stA.choiceBits.length = LAMBDA_C_BYTES := by
+    rw [receiverNewOt_stA]; exact recvNew_choiceBits_length h _ _
+  rw [receiverNewOt_sid, receiverNewOt_b, receiverNewOt_beta]
+  have hOT := ot_layer_rel h sid _ _ ka kb _ _ hla hA hB
+  unfold senderCoreOt
+  rw [senderVOt_id]
+  dsimp only
+  exact of_OT h sid _ _ _ _ a _ hOT
+
+/-- the conclusion of `C05.main` for one Endemic exchange, in the form `base` consumes it -/
+theorem keyRel_of_C05 (h : Query → Id Bytes) {F G : Type} [Field F] [AddCommGroup G] [Module F G]
+    (go : Endemic.GroupOracle h F G) (sidX : Bytes) (tR tS : Tape) :
+    (Endemic.sendProcess (m := Id) h sidX (Endemic.recvNew (m := Id) h sidX tR).2.1 tS).1.err = false ∧
+    ∃ rk, Endemic.recvProcess (m := Id) h (Endemic.recvNew (m := Id) h sidX tR).1
+            (Endemic.sendProcess (m := Id) h sidX (Endemic.recvNew (m := Id) h sidX tR).2.1 tS).1.msg2 = some rk ∧
+      KeyRel (Endemic.recvNew (m := Id) h sidX tR).1.choiceBits
+        (Endemic.sendProcess (m := Id) h sidX (Endemic.recvNew (m := Id) h sidX tR).2.1 tS).1.keys rk := by
+  obtain ⟨he, rk, hrk, hl1, hl2, hall⟩ := C05.main h go sidX tR tS
+  refine ⟨he, rk, hrk, ⟨hl1, hl2, ?_⟩⟩
+  intro i hi
+  obtain ⟨k, kp, h1, h2, h3⟩ := hall i hi
+  rw [List.getD_eq_getElem?_getD, List.getD_eq_getElem?_getD, h1, h2]
+  exact h3
+
+/-- **C01, base-OT variant, base OTs discharged by C05.**  For every oracle whose secp256k1 answers form a group
+    (`Endemic.GroupOracle`: the assumption under which `C05.main` proves the Endemic exchange correct; nothing is assumed
+    about merlin), every session id, input and tapes: the base-OT variant accepts in both rounds and
+    `c_i + d_i = a_i · b (mod q)`. -/
+theorem base_group (h : Query → Id Bytes) {F G : Type} [Field F] [AddCommGroup G] [Module F G]
+    (go : Endemic.GroupOracle h F G) (sid : Bytes) (a : List ℕ) (tapeR tapeS : Tape) :
+    (senderProcessOt (m := Id) h sid a (receiverNewOt (m := Id) h sid tapeR).2.1 tapeS).err = none ∧
+    ∃ d, receiverProcessOt (m := Id) h (receiverNewOt (m := Id) h sid tapeR).1
+            (senderProcessOt (m := Id) h sid a (receiverNewOt (m := Id) h sid tapeR).2.1 tapeS).msg = .ok d ∧
+      ∀ i < L_BATCH,
+        ((senderProcessOt (m := Id) h sid a (receiverNewOt (m := Id) h sid tapeR).2.1 tapeS).c.getD i 0 + d.getD i 0)
+            % secpQ
+          = (a.getD i 0 * (receiverNewOt (m := Id) h sid tapeR).2.2.1) % secpQ := by
+  obtain ⟨hAe, ka, hAr, hA⟩ := keyRel_of_C05 h go (otSids (m := Id) h sid).1 tapeR tapeS
+  obtain ⟨hBe, kb, hBr, hB⟩ := keyRel_of_C05 h go (otSids (m := Id) h sid).2
+    (Endemic.recvNew (m := Id) h (otSids (m := Id) h sid).1 tapeR).2.2
+    (Endemic.sendProcess (m := Id) h (otSids (m := Id) h sid).1
+      (Endemic.recvNew (m := Id) h (otSids (m := Id) h sid).1 tapeR).2.1 tapeS).2
+  apply base h sid a tapeR tapeS ka kb
+  · rw [receiverNewOt_m1a]; exact hAe
+  · rw [receiverNewOt_m1a, receiverNewOt_m1b]; exact hBe
+  · rw [receiverNewOt_m1a, receiverNewOt_stA]; exact hAr
+  · rw [receiverNewOt_m1a, receiverNewOt_m1b, receiverNewOt_stB]; exact hBr
+  · rw [receiverNewOt_m1a, receiverNewOt_stA]; exact hA
+  · rw [receiverNewOt_m1a, receiverNewOt_m1b, receiverNewOt_stB]; exact hB
+
+/-- the seeds produced by the all-but-one PPRF from consistent base-OT outputs are in the all-but-one relation that
+    `C03.main` (hence `ext`) asks for: `SenderOTSeed = leaves`, `ReceiverOTSeed = (y*, s*)` of `C06.main` -/
+theorem pprf_seeds_rel (h : Query → Id Bytes) (sidP : Bytes) (keys : List (Bytes × Bytes)) (bits : Bytes)
+    (dks : List Bytes) (hb : C06.BaseOT keys bits dks) :
+    ∃ r, Pprf.evalPprf (m := Id) h sidP bits dks (Pprf.buildPprf (m := Id) h sidP keys).2 = .ok r ∧
+      ∀ i < LAMBDA_C_DIV_SOFT_SPOKEN_K, ∀ j < SOFT_SPOKEN_Q, j ≠ (r.map (·.1)).getD i 0 →
+        SoftSpoken.keyAt (r.map (·.2)) i j = SoftSpoken.keyAt (Pprf.buildPprf (m := Id) h sidP keys).1 i j := by
+  obtain ⟨r, hr, hlen, hall⟩ := C06.main h sidP keys bits dks hb
+  refine ⟨r, hr, ?_⟩
+  intro i hi j _ hne
+  obtain ⟨ystar, sstar, leaves, hri, hli, _, _, _, _, heq, _⟩ := hall i hi
+  have hil : i < r.length := by rw [hlen]; exact hi
+  have e1 : (r.map (·.1)).getD i 0 = ystar := by
+    rw [List.getD_eq_getElem?_getD, List.getElem?_map, hri]; rfl
+  have e2 : (r.map (·.2)).getD i [] = sstar := by
+    rw [List.getD_eq_getElem?_getD, List.getElem?_map, hri]; rfl
+  have e3 : (Pprf.buildPprf (m := Id) h sidP keys).1.getD i [] = leaves := by
+    rw [List.getD_eq_getElem?_getD, hli]; rfl
+  unfold SoftSpoken.keyAt
+  rw [e2, e3, List.getD_eq_getElem?_getD, List.getD_eq_getElem?_getD, heq j (by rw [← e1]; exact hne)]
+
+/-- **C01, seeds from the real pipeline.**  Base-OT outputs in the relation `C06.BaseOT` (the conclusion of C05: the
+    receiver's key is the sender's key for its choice bit, 32-byte keys) are turned into all-but-one seeds by
+    `build_pprf` / `eval_pprf` under any session id `sidP`; the random vector OLE of the OT-extension variant run on THOSE
+    seeds, under any session id `sid`, input `a` and tapes, accepts in both rounds and satisfies `c_i + d_i = a_i · b`.
+    Composition: `C06.main` (PPRF correctness) ⇒ all-but-one relation ⇒ `C03.main` (OT extension) ⇒ `core`. -/
+theorem pipeline (h : Query → Id Bytes) (sidP sid : Bytes) (keys : List (Bytes × Bytes)) (bits : Bytes)
+    (dks : List Bytes) (hb : C06.BaseOT keys bits dks) (a : List ℕ) (tapeR tapeS : Tape)
+    (hlen : L_BYTES ≤ tapeR.length) (hbytes : ∀ x ∈ tapeR, x < 256) :
+    ∃ r, Pprf.evalPprf (m := Id) h sidP bits dks (Pprf.buildPprf (m := Id) h sidP keys).2 = .ok r ∧
+      ∃ c msg tS,
+        senderProcess (m := Id) h sid (r.map (·.1)) (r.map (·.2)) a
+          (receiverNew (m := Id) h sid (Pprf.buildPprf (m := Id) h sidP keys).1 tapeR).2.1 tapeS = .ok (c, msg, tS) ∧
+        ∃ d, receiverProcess (m := Id) h
+            (receiverNew (m := Id) h sid (Pprf.buildPprf (m := Id) h sidP keys).1 tapeR).1 msg = .ok d ∧
+          ∀ i < L_BATCH, (c.getD i 0 + d.getD i 0) % secpQ
+            = (a.getD i 0 * (receiverNew (m := Id) h sid (Pprf.buildPprf (m := Id) h sidP keys).1 tapeR).2.2.1) % secpQ := by
+  obtain ⟨r, hr, hrel⟩ := pprf_seeds_rel h sidP keys bits dks hb
+  exact ⟨r, hr, ext h sid _ _ _ a tapeR tapeS hlen hbytes hrel⟩
+
 /-! non-vacuity: the hypotheses of `ext` are satisfiable (equal seed sets, an 80-byte tape), for every oracle -/
 example (h : Query → Id Bytes) :
     ∃ c msg tS d, senderProcess (m := Id) h [] [] [] [0, 1]
@@ -125,5 +263,17 @@ example (h : Query → Id Bytes) :
     (by rw [List.length_replicate]; exact Nat.le_of_ble_eq_true rfl)
     (by intro x hx; rw [List.eq_of_mem_replicate hx]; exact Nat.lt_of_sub_eq_succ rfl) (fun _ _ _ _ _ => rfl)
   exact ⟨c, msg, tS, d, h1, h2, h3⟩
+
+/-- non-vacuity of `pipeline`: consistent base-OT outputs exist (all keys equal), so for every oracle the conclusion holds
+    for the seeds the PPRF derives from them -/
+example : C06.BaseOT (List.replicate LAMBDA_C (Pprf.zeros Pprf.KB, Pprf.zeros Pprf.KB)) [] (List.replicate LAMBDA_C (Pprf.zeros Pprf.KB)) where
+  len := fun i hi => by
+    rw [List.getD_eq_getElem?_getD, List.getElem?_replicate, if_pos hi]
+    exact ⟨List.length_replicate, List.length_replicate⟩
+  cons := fun i hi => by
+    rw [List.getD_eq_getElem?_getD, List.getD_eq_getElem?_getD, List.getElem?_replicate, List.getElem?_replicate,
+      if_pos hi]
+    unfold Pprf.sel
+    split <;> rfl
 
 end SlVerif.C01
